@@ -57,9 +57,28 @@ def same_float(text, x):
     return y == x and math.copysign(1.0, y) == math.copysign(1.0, x)
 
 
-def unary_program(op, k, a):
+def unary_program(op, k, a, carrier="variable"):
     lines = N.construct(k, a, "a", "za")
-    lines += ["print a", f"print {op}a"]
+    lines += ["print a"]
+    if carrier == "variable":
+        lines += [f"print {op}a"]
+    elif carrier == "element":
+        lines += [f"la: [{k}...] = [a, a]", f"print {op}la[1]", "print la[1]"]       # the element itself must stay as it was
+    elif carrier == "field":
+        lines = ["class P {", f"\tx: {k}", f"\tconstructor(self, x: {k}) {{", "\t\tself.x = x", "\t}",
+                 "\tfn own(self) {", f"\t\tprint {op}self.x", "\t}", "}"] + lines + ["pp = P(a)", f"print {op}pp.x", "pp.own()", "print pp.x"]
+    elif carrier == "parameter":
+        lines += [f"fp = fn(p: {k}) {{", f"\tprint {op}p", "}", "fp(a)"]
+    elif carrier == "captured":
+        lines += ["fc = fn() {", f"\tprint {op}a", "}", "fc()"]
+    elif carrier == "result":
+        lines += [f"ra = fn() -> {k} {{", "\treturn a", "}", f"print {op}ra()"]
+    elif carrier == "map-value":
+        lines += [f"ma = map[str, {k}]", 'ma["k"] = a', f'print {op}(get ma["k"])']
+    elif carrier == "optional":
+        lines += [f"oa: {k}? = a", f"print {op}(get oa)"]
+    else:
+        raise ValueError(carrier)
     return "\n".join(lines) + "\n"
 
 
@@ -94,6 +113,13 @@ class C05(Check):
                     yield ("un", "-", k, a)
             yield ("un", "!", "bool", 0)
             yield ("un", "!", "bool", 1)
+            # the same through every carrier (2 values per kind: the first and the last of the boundary set)
+            for car in CARRIERS:
+                for k in ("int", "bigint", "float"):
+                    for a in (0, len(N.VALUES[k]) - 1):
+                        yield ("un", "-", k, a, car)
+                yield ("un", "!", "bool", 0, car)
+                yield ("un", "!", "bool", 1, car)
 
         def carried(vals_n):
             for c in cells(vals_n):
@@ -107,7 +133,10 @@ class C05(Check):
     def describe(self, case):
         if case[0] == "un":
             v = N.VALUES[case[2]][case[3]] if case[2] != "bool" else bool(case[3])
-            return {"op": case[1], "kind": case[2], "value": repr(v)}
+            d = {"op": case[1], "kind": case[2], "value": repr(v)}
+            if len(case) > 4:
+                d["carrier"] = case[4]
+            return d
         if case[0] == "car":
             _, car, op, lk, a, rk, b = case
             return {"op": op, "lkind": lk, "lvalue": repr(N.VALUES[lk][a]), "rkind": rk, "rvalue": repr(N.VALUES[rk][b]), "carrier": car}
@@ -117,9 +146,9 @@ class C05(Check):
     def run_case(self, case):
         desc = self.describe(case)
         if case[0] == "un":
-            _, op, k, ai = case
+            _, op, k, ai = case[:4]
             a = N.VALUES[k][ai] if k != "bool" else bool(ai)
-            src = unary_program(op, k, a)
+            src = unary_program(op, k, a, case[4] if len(case) > 4 else "variable")
             try:
                 exp = N.neg(k, a) if op == "-" else ("bool", not a)
             except N.Fail as e:
@@ -179,6 +208,15 @@ class C05(Check):
             outcome = f"fail-{res.cls}"
         else:
             want = [N.typed(*exp)] * (2 if (case[0] == "bin" and car == "field") else 1)
+            ucar = case[4] if case[0] == "un" and len(case) > 4 else None
+            if ucar in ("element", "field"):
+                # the operator works on a copy: the element / field read again afterwards still holds the operand
+                last = [g.lstrip("&") for g in got[-1:]]        # the typed print marks a value read through a reference with `&`
+                tail_ok = last == operands or (k == "float" and last and same_float(last[0], a))
+                got = got[:-1]
+                want = want * (2 if ucar == "field" else 1)
+                if res.exit == 0 and not tail_ok:
+                    bad("operand-changed", f"{desc}: after the operation the {ucar} holds {lines[-1:]}, it held {operands}")
             if res.exit != 0:
                 bad("unexpected-failure", f"{desc}: expected {want[0]}, execution failed ({res.cls}): "
                                           f"{driver.classify_failure(res)}")
